@@ -66,6 +66,8 @@ inductive Verdict where
   | claimOther           -- any other error inside verifyPreRuntimeDigest (decode, VRF decode)
   | sealOther            -- signature length / decode error
   | verifierInfo         -- getVerifierInfo failed (CalculateThreshold error)
+  | parentUnknown        -- VerifyBlock: blockState.GetHeader(parent) failed
+  | epochLower           -- VerifyBlock: errEpochLowerThanExpected
 deriving Repr, DecidableEq
 
 /-- `verifierInfo`: number of authorities and `secondarySlots: configData.SecondarySlots > 0` -/
@@ -169,6 +171,157 @@ def authorisedLax (H : Bytes → Bytes) (ss c1 c2 n : Nat) (rand : Bytes) (diges
   | some (.pre (some pd)), some .sealItem =>
     decide (pd.idx < n) && kindAllowedLax ss pd && claimRight H n rand o pd && o.sig == .yes
   | _, _ => false
+
+
+/-! ### VerificationManager: VerifyBlock and SetOnDisabled on one manager
+
+The world of the manager cases: two branches A, B under genesis; block `X k` (k = 1, 2, 3) has number `k`
+and epoch 0, 1, 1.  Epoch data and configuration are resolved by the BRANCH of the header asked about
+(C26): epoch 0 = descriptor `g`; epoch e ≥ 1 on branch X = descriptor X with randomness byte `rb + e - 1`.
+`VerifyBlock` reads no manager state at all (`epochInfo`/`onDisabled` are only touched by `SetOnDisabled`). -/
+
+/-- an epoch descriptor: authority count, randomness byte, c1/c2, SecondarySlots -/
+structure Desc where
+  n : Nat
+  rb : Nat
+  c1 : Nat
+  c2 : Nat
+  ss : Nat
+deriving Repr, DecidableEq
+
+structure Env where
+  g : Desc
+  a : Desc
+  b : Desc
+deriving Repr
+
+inductive Branch where
+  | A | B
+deriving Repr, DecidableEq
+
+/-- the descriptor in force on a branch for an epoch -/
+def Env.at (env : Env) (br : Branch) (epoch : Nat) : Desc :=
+  if epoch = 0 then env.g
+  else
+    let d := match br with | .A => env.a | .B => env.b
+    { d with rb := (d.rb + (epoch - 1)) % 256 }
+
+def randOf (rb : Nat) : Bytes := List.replicate 32 (UInt8.ofNat rb)
+
+inductive Parent where
+  | genesis
+  | blk (k : Nat)
+  | unknown
+deriving Repr, DecidableEq
+
+def epochOfK (k : Nat) : Nat := if k ≤ 1 then 0 else 1
+
+/-- a header handed to VerifyBlock: its branch, parent, epoch (GetEpochForBlock), digest, and the
+    truth about its crypto w.r.t. the descriptor of ITS OWN branch -/
+structure VB where
+  branch : Branch
+  parent : Parent
+  epoch : Nat
+  digest : List Item
+  o : Oracles
+deriving Repr
+
+/-- verification with a given descriptor (getVerifierInfo + newVerifier + verifyAuthorshipRight) -/
+def verifyWith (H : Bytes → Bytes) (d : Desc) (digest : List Item) (o : Oracles) : Verdict :=
+  verify H d.ss d.c1 d.c2 d.n (randOf d.rb) digest o
+
+/-- the epoch whose descriptor VerifyBlock uses (`epochWhereDataDescriptorIs`) -/
+def whereEpoch (parentEpoch epoch : Nat) : Nat :=
+  if epoch > parentEpoch + 1 then parentEpoch + 1 else epoch
+
+/-- `VerificationManager.VerifyBlock` -/
+def verifyBlock (H : Bytes → Bytes) (env : Env) (b : VB) : Verdict :=
+  match b.parent with
+  | .unknown => .parentUnknown
+  | .genesis => verifyWith H (env.at b.branch b.epoch) b.digest b.o
+  | .blk k =>
+    if epochOfK k > b.epoch then .epochLower
+    else verifyWith H (env.at b.branch (whereEpoch (epochOfK k) b.epoch)) b.digest b.o
+
+structure Blk where
+  branch : Branch
+  k : Nat
+deriving Repr, DecidableEq
+
+/-- `onDisabledInfo` under its map keys (epoch, producer index) -/
+structure DisEntry where
+  epoch : Nat
+  idx : Nat
+  number : Nat
+  blk : Blk
+deriving Repr, DecidableEq
+
+/-- the manager state the code keeps: `epochInfo` (here: the cached authority count per epoch NUMBER)
+    and `onDisabled` -/
+structure MState where
+  cache : List (Nat × Nat)
+  disabled : List DisEntry
+deriving Repr
+
+def MState.init : MState := ⟨[], []⟩
+
+inductive DisResult where
+  | ok | index | already | verifierInfo
+deriving Repr, DecidableEq
+
+/-- stub BlockState.IsDescendantOf on the fixed tree: ancestor-or-self on one branch -/
+def isDescendantOf (p c : Blk) : Bool := p.branch == c.branch && decide (p.k ≤ c.k)
+
+/-- `VerificationManager.SetOnDisabled(idx, header of X k)`.  The authority count the index is checked
+    against comes from `epochInfo[epoch]`, filled by the FIRST header seen for that epoch number. -/
+def setOnDisabled (env : Env) (st : MState) (br : Branch) (k idx : Nat) : MState × DisResult :=
+  let epoch := epochOfK k
+  let cached : Option (MState × Nat) :=
+    match st.cache.lookup epoch with
+    | some n => some (st, n)
+    | none =>
+      let d := env.at br epoch
+      match getVerifierInfo d.ss d.c1 d.c2 d.n with
+      | none => none
+      | some info => some ({ st with cache := (epoch, info.n) :: st.cache }, info.n)
+  match cached with
+  | none => (st, .verifierInfo)
+  | some (st1, n) =>
+    if idx ≥ n then (st1, .index)
+    else if (st1.disabled.filter fun e => e.epoch = epoch ∧ e.idx = idx).any
+        (fun e => isDescendantOf e.blk ⟨br, k⟩ && decide (k ≥ e.number)) then (st1, .already)
+    else ({ st1 with disabled := st1.disabled ++ [⟨epoch, idx, k, ⟨br, k⟩⟩] }, .ok)
+
+inductive Op where
+  | vb (b : VB)
+  | dis (br : Branch) (k idx : Nat)
+deriving Repr
+
+inductive Out where
+  | verdict (v : Verdict)
+  | dis (r : DisResult)
+deriving Repr, DecidableEq
+
+def stepOp (H : Bytes → Bytes) (env : Env) (st : MState) : Op → MState × Out
+  | .vb b => (st, .verdict (verifyBlock H env b))
+  | .dis br k idx => let r := setOnDisabled env st br k idx; (r.1, .dis r.2)
+
+/-- a sequence of calls on one manager -/
+def runOps (H : Bytes → Bytes) (env : Env) : MState → List Op → List Out
+  | _, [] => []
+  | st, op :: ops => (stepOp H env st op).2 :: runOps H env (stepOp H env st op).1 ops
+
+/-- specification: the header is authorised with the epoch data of its own branch -/
+def blockAuthorised (H : Bytes → Bytes) (env : Env) (b : VB) : Bool :=
+  match b.parent with
+  | .unknown => false
+  | .genesis =>
+    let d := env.at b.branch b.epoch
+    authorised H d.ss d.c1 d.c2 d.n (randOf d.rb) b.digest b.o
+  | .blk k =>
+    decide (epochOfK k ≤ b.epoch) &&
+    (let d := env.at b.branch (whereEpoch (epochOfK k) b.epoch)
+     authorised H d.ss d.c1 d.c2 d.n (randOf d.rb) b.digest b.o)
 
 /-! ### the node's own lottery -/
 
